@@ -47,7 +47,7 @@ OUT_OF_REACH = ['GSS-API methods', 'hostbased auth from the hostile client '
 REQUIRED = ['histories', 'success_checked', 'refusal_checked',
             'clean_valid_admitted', 'preauth_probes', 'restriction_probes',
             'gated_histories', 'signature_defects', 'positive_logins',
-            'user_switches', 'cert_logins', 'cert_refusals_expected',
+            'user_switches', 'exec_reordered', 'cert_logins', 'cert_refusals_expected',
             'cert_admissions_expected']
 BUDGET_S = {'quick': 300, 'thorough': 3400}
 CASE_TIMEOUT_S = 60
@@ -115,6 +115,21 @@ def gen_cases(tier, seed):
             return ['malformed', u, rng.randrange(1 << 16)]
         return [m, u] if m == 'none' else [m]
 
+    # regression probes: a superseded request's begin_auth / config reload
+    # finishing after the superseding request's
+    for steps in ([['pk_query', 'alice', 'A'],
+                   ['pk_signed', 'mallory', 'A', 'right']],
+                  [['none', 'alice'], ['pk_signed', 'bob', 'A', 'right'],
+                   ['pk_signed', 'bob', 'A', 'right']],
+                  [['password', 'alice', 'wrong'],
+                   ['pk_signed', 'carol', 'A', 'right']]):
+        for chunk in ('all', 'record'):
+            cases.append({'kind': 'history', 'steps': steps,
+                          'pipelined': True, 'gated': False,
+                          'release': 'lifo', 'gate_begin': False,
+                          'exec_order': 'lifo', 'chunk': chunk,
+                          'cseed': 5})
+
     for i in range(n):
         k = rng.choice([1, 2, 2, 3, 3, 4, 6])
         steps = [step() for _ in range(k)]
@@ -136,6 +151,7 @@ def gen_cases(tier, seed):
                       'gated': gated,
                       'release': rng.choice(['fifo', 'lifo', 'random']),
                       'gate_begin': gated and rng.random() < 0.5,
+                      'exec_order': rng.choice(['fifo', 'fifo', 'lifo']),
                       'chunk': rng.choice(['all', 'record', 'random']),
                       'cseed': rng.randrange(1 << 30)})
 
@@ -149,6 +165,7 @@ def gen_cases(tier, seed):
                       'pipelined': True, 'gated': True,
                       'release': rng.choice(['fifo', 'lifo']),
                       'gate_begin': rng.random() < 0.7,
+                      'exec_order': rng.choice(['fifo', 'lifo']),
                       'chunk': 'all', 'cseed': rng.randrange(1 << 30)})
 
     # certificate credentials: every way a certificate can be wrong
@@ -367,6 +384,11 @@ def _run_history(case, mon, viol):
     async def main(loop):
         rec = []
         pending = []
+        # the per-user config reload runs in an executor: let later jobs
+        # finish first in some cases (a legal thread schedule)
+        loop.exec_order = case.get('exec_order', 'fifo')
+        if loop.exec_order == 'lifo':
+            mon['exec_reordered'] += 1
 
         def mk():
             return AuthServer(rec, pending, case['gated'],
